@@ -87,9 +87,23 @@ def list_tests(root: str, bd: str, sel_args: T.List[str], tag: str) -> T.Dict[st
 
 
 def sim_run(root: str, bd: str, argv: T.List[str], simparams: T.Dict[str, T.Any],
-            scripts: T.Dict[str, T.Any], tag: str, timeout: float = 120.0, logbase: str = 'testlog') -> T.Dict[str, T.Any]:
+            scripts: T.Dict[str, T.Any], tag: str, timeout: float = 120.0, logbase: str = 'testlog',
+            extra_env: T.Optional[T.Dict[str, str]] = None) -> T.Dict[str, T.Any]:
     return forkrun(run_mtest, bd, argv, simparams, scripts, logbase, capture=os.path.join(root, f'run-{tag}.log'),
-                   timeout=timeout, env=M.clean_env())
+                   timeout=timeout, env=M.clean_env(extra_env))
+
+
+def jobs_env(run: T.Dict[str, T.Any]) -> T.Dict[str, str]:
+    """The documented ways to ask for N jobs besides the command line (Unit-tests.md): MESON_TESTTHREADS,
+    MESON_NUM_PROCESSES (prevails when both are set)."""
+    via = run.get('jvia', 'arg')
+    if via == 'testthreads':
+        return {'MESON_TESTTHREADS': str(run['j'])}
+    if via == 'numproc':
+        return {'MESON_NUM_PROCESSES': str(run['j'])}
+    if via == 'both':
+        return {'MESON_TESTTHREADS': str(run['j'] + 3), 'MESON_NUM_PROCESSES': str(run['j'])}
+    return {}
 
 
 def selection_args(run: T.Dict[str, T.Any]) -> T.List[str]:
@@ -107,7 +121,8 @@ def selection_args(run: T.Dict[str, T.Any]) -> T.List[str]:
 
 
 def run_args(bd: str, run: T.Dict[str, T.Any]) -> T.List[str]:
-    a = ['-C', bd, '--num-processes', str(run['j'])]
+    via = run.get('jvia', 'arg')
+    a = ['-C', bd] + (['--num-processes', str(run['j'])] if via == 'arg' else ['-j', str(run['j'])] if via == 'short' else [])
     if run.get('repeat', 1) != 1:
         a += ['--repeat', str(run['repeat'])]
     if run.get('maxfail', 0):
